@@ -115,12 +115,22 @@ type ErrorListener struct {
 	*antlr.DefaultErrorListener
 	Error error
 	Data  string
+	count int // number of syntax errors seen so far
 }
+
+// maxReportedErrors bounds how many syntax errors are kept in ErrorListener.Error.
+// Every message quotes the whole input, so keeping all of them makes the cost of
+// a malformed input quadratic in the number of errors.
+const maxReportedErrors = 5
 
 // SyntaxError is called by ANTLR when a syntax error occurs.
 func (l *ErrorListener) SyntaxError(_ antlr.Recognizer, _ any, line, column int, msg string, e antlr.RecognitionException) {
+	l.count++
 	if l.Error == nil {
 		l.Error = fmt.Errorf("line %d:%d %s >> text: %q", line, column, msg, l.Data)
+		return
+	}
+	if l.count > maxReportedErrors {
 		return
 	}
 	l.Error = fmt.Errorf("%w\nline %d:%d %s >> text: %q", l.Error, line, column, msg, l.Data)
